@@ -18,6 +18,10 @@ func main() {
 		cmdVerify(os.Args[2:])
 	case "check":
 		cmdCheck(os.Args[2:])
+	case "ct":
+		cmdCt(os.Args[2:])
+	case "ring":
+		cmdRing(os.Args[2:])
 	default:
 		fmt.Fprintln(os.Stderr, "unknown command", os.Args[1])
 		os.Exit(2)
@@ -105,3 +109,80 @@ func truncate(s string, n int) string {
 	return s
 }
 
+
+func cmdCt(args []string) {
+	fs := flag.NewFlagSet("ct", flag.ExitOnError)
+	repo := fs.String("repo", "/repo", "repository root")
+	spec := fs.String("spec", "/verif/spec", "spec library directory")
+	roots := fs.String("roots", "", "comma separated function keys with #ct contracts")
+	all := fs.Bool("all", false, "print discharged obligations too")
+	fs.Parse(args)
+	eng, err := NewEngine(*repo, "", "verif")
+	if err != nil {
+		fmt.Fprintln(os.Stderr, "load:", err)
+		os.Exit(2)
+	}
+	if err := eng.LoadContracts(ContractFilesArch(*repo, "", *spec)); err != nil {
+		fmt.Fprintln(os.Stderr, "contracts:", err)
+		os.Exit(2)
+	}
+	an := NewCtAnalysis(eng)
+	for _, r := range strings.Split(*roots, ",") {
+		if err := an.AnalyseRoot(strings.TrimSpace(r)); err != nil {
+			fmt.Println("ERROR:", err)
+		}
+	}
+	n, bad := 0, 0
+	for _, o := range an.Obligations() {
+		n++
+		if !o.OK {
+			bad++
+			fmt.Printf("FAIL %s at %s: %s\n", o.Name, o.Pos, o.What)
+		} else if *all {
+			fmt.Printf("ok   %s\n", o.Name)
+		}
+	}
+	var fl []string
+	for f := range an.funcs {
+		fl = append(fl, f)
+	}
+	sort.Strings(fl)
+	fmt.Printf("%d obligations, %d failed; functions reached: %s\n", n, bad, strings.Join(fl, ", "))
+	for k, v := range an.declUsed {
+		fmt.Printf("declassified %s -- %s\n", k, v)
+	}
+	for _, nn := range an.notes {
+		fmt.Println("note:", nn)
+	}
+}
+
+func cmdRing(args []string) {
+	fs := flag.NewFlagSet("ring", flag.ExitOnError)
+	repo := fs.String("repo", "/repo", "repository root")
+	spec := fs.String("spec", "/verif/spec", "spec library directory")
+	funcs := fs.String("funcs", "", "comma separated function keys with #ring contracts")
+	fs.Parse(args)
+	eng, err := NewEngine(*repo, "", "verif")
+	if err != nil {
+		fmt.Fprintln(os.Stderr, "load:", err)
+		os.Exit(2)
+	}
+	if err := eng.LoadContracts(ContractFilesArch(*repo, "", *spec)); err != nil {
+		fmt.Fprintln(os.Stderr, "contracts:", err)
+		os.Exit(2)
+	}
+	for _, f := range strings.Split(*funcs, ",") {
+		obs, err := eng.VerifyRing(strings.TrimSpace(f))
+		if err != nil {
+			fmt.Println("ERROR:", err)
+			continue
+		}
+		for _, o := range obs {
+			if o.OK {
+				fmt.Println("ok  ", o.Name)
+			} else {
+				fmt.Println("FAIL", o.Name, o.Msg)
+			}
+		}
+	}
+}
